@@ -14,7 +14,7 @@ package merkledag
 // (the link-size clauses are `trusted`: clients rely on them, the bodies are checked for C11 only)
 //@ func (*ProtoNode).AddRawLink
 //@   prop C11
-//@   arith int
+//@   arith bv
 //@   requires n != nil && l != nil
 //@   modifies fields(n), elems(n.links), linkBytes(n), namedBytes(n, name)
 //@   trusted[added] err == nil ==> linkBytes(n) == old(linkBytes(n)) + linkEntryBytes(len(name), l.Cid, l.Size)
@@ -22,6 +22,7 @@ package merkledag
 //@   trusted[failed] err != nil ==> linkBytes(n) == old(linkBytes(n)) && namedBytes(n, name) == old(namedBytes(n, name))
 //@   ensures[encoding_dropped] err == nil ==> n.encoded == nil && n.linksDirty
 //@   ensures[failed_changes_nothing] err != nil ==> n.links == old(n.links) && n.encoded == old(n.encoded) && n.linksDirty == old(n.linksDirty)
+//@   ensures[links_array_kept_or_new] arr(n.links) == old(arr(n.links)) || fresh(arr(n.links))
 
 //@ func (*ProtoNode).GetNodeLink
 //@   assumed
@@ -31,26 +32,29 @@ package merkledag
 
 //@ func (*ProtoNode).RemoveNodeLink
 //@   prop C11
-//@   arith int-assumed
+//@   arith bv
 //@   requires n != nil
 //@   modifies fields(n), elems(n.links), linkBytes(n), namedBytes(n, name)
 //@   trusted[removed] err == nil ==> linkBytes(n) == old(linkBytes(n)) - old(namedBytes(n, name)) && namedBytes(n, name) == 0
 //@   trusted[present] old(namedBytes(n, name)) > 0 ==> err == nil
 //@   trusted[failed] err != nil ==> linkBytes(n) == old(linkBytes(n)) && namedBytes(n, name) == old(namedBytes(n, name))
+//@   loop 0 invariant[ref_array] arr(ref) == old(arr(n.links)) || fresh(arr(ref))
 //@   ensures[encoding_dropped] err == nil ==> n.encoded == nil && n.linksDirty
 //@   ensures[failed_keeps_caches] err != nil ==> n.encoded == old(n.encoded) && n.linksDirty == old(n.linksDirty) && len(n.links) == old(len(n.links))
+//@   ensures[links_array_kept_or_new] arr(n.links) == old(arr(n.links)) || fresh(arr(n.links))
 
 //@ func (*ProtoNode).sortLinks
 //@   assumed
 //@   modifies elems(n.links)
 //@ func (*ProtoNode).Links
 //@   prop C11
-//@   arith int
+//@   arith bv
 //@   requires n != nil
 //@   modifies fields(n), elems(n.links)
 //@   ensures[sorting_drops_the_encoding] old(n.linksDirty) ==> n.encoded == nil && !n.linksDirty
 //@   ensures[clean_node_untouched] !old(n.linksDirty) ==> n.encoded == old(n.encoded) && !n.linksDirty
 //@   ensures[a_copy] len(result) == len(n.links)
+//@   ensures[links_array_kept] n.links == old(n.links)
 
 // ---- C11: the cached encoding and the cached CID never outlive what they were computed from ----
 // invariant kept by every mutator:
